@@ -19,6 +19,7 @@ let () =
                 | "exec" -> M_exec.handle cmd args
                 | "value" -> M_value.handle cmd args
                 | "open" -> M_open.handle cmd args
+                | "stor" -> M_storage.handle cmd args
                 | _ -> failwith ("unknown module " ^ m))
              | _ -> failwith "bad line"
            with
